@@ -148,7 +148,7 @@ def searches(tier):
     q = tier == "quick"
     return [
         ("flat", schedgen.program(maxdepth=0), 1200 if q else 15000),
-        ("nested", schedgen.program(maxdepth=2), 1200 if q else 20000),
+        ("nested", schedgen.program(maxdepth=2, prerun_ok=True), 1200 if q else 20000),
         # same shapes with the known nested-asap-base pattern avoided by construction
         ("nested-split-yields", schedgen.program(maxdepth=2, split_yields=True), 800 if q else 10000),
     ]
